@@ -2,7 +2,7 @@
 import math
 from fractions import Fraction
 from ..core import Report, xint, xstr, Seq
-from ..table import run_table, replay_table, ERR, UNSPEC, pred, predicate
+from ..table import run_table, replay_table, ERR, UNSPEC, NOTVAL, pred, predicate
 
 PROP = 'C14'
 
@@ -138,7 +138,7 @@ def cases(tier):
             add('sym-pow|%d|%d' % (a, b), '%s ** %d' % (xint(a), b), exp)
         if a in (0, 1, -1):
             # the trivial bases with exponents of every magnitude and parity (the result never grows)
-            for b in ((1 << 31), (1 << 32) + 1, (1 << 62) + 1, (1 << 63) - 1, 1 << 63, (1 << 63) + 1, (1 << 64) - 1, 1 << 64, (1 << 64) + 1, (1 << 127) - 1, (1 << 70) + 1, 3 ** 50, 1 << 200):
+            for b in ((1 << 31), 1 << 32, 3 << 32, 1 << 33, (1 << 32) + (1 << 31), 1 << 48, 1 << 62, (1 << 63) - (1 << 32), (1 << 32) + 1, (1 << 62) + 1, (1 << 63) - 1, 1 << 63, (1 << 63) + 1, (1 << 64) - 1, 1 << 64, (1 << 64) + 1, (1 << 127) - 1, (1 << 70) + 1, 3 ** 50, 1 << 200):
                 exp = a ** (b % 2 + 2) if a else 0
                 add('pow-trivial-base|%d|%d' % (a, b), 'pow(%s, %s)' % (xint(a), xint(b)), exp)
                 add('pow-trivial-base-eq|%d|%d' % (a, b), '(%s ** %s) == %s' % (xint(a), xint(b), xint(exp)), True)
@@ -175,6 +175,9 @@ def cases(tier):
             if spec:
                 add('format-alt|%s|%d' % (spec, a), wrap('format(%s, %s)' % (xint(a), xstr('#' + spec))),
                     format(a, '#' + fmt).lower() if spec == 'X' else format(a, '#' + fmt))
+        for base in (2, 10, 1 << 31, 1 << 32, (1 << 63) - 1, 1 << 63, (1 << 63) + 1, 1 << 64, (1 << 64) + 1, 1 << 127, 10 ** 19):
+            # any sign, any base magnitude: the digits rebuild the number, each is smaller than the base and none has the other sign
+            add('digits-law|%d|%d' % (a, base), 'digits(%s, %s)' % (xint(a), xint(base)), pred('digits_rebuild', a, base))
         if a >= 0:
             for base in (2, 3, 7, 10, 16, 36, 1 << 64):
                 n, ds = a, []
@@ -249,6 +252,19 @@ def cases(tier):
             for k in ks:
                 num //= math.factorial(k)
             add('multinom|%s' % ','.join(map(str, ks)), 'multinom([%s])' % ', '.join(map(str, ks)), num)
+    edge = []
+    for k in (31, 32, 63, 64) if tier == 'quick' else (31, 32, 62, 63, 64, 65, 127, 128):
+        edge += [(1 << k) + d for d in ((-2, -1, 0, 1) if tier == 'quick' else (-3, -2, -1, 0, 1, 2))]
+    for n in edge:
+        for k in (0, 1, 2, 3):
+            add('binom-edge|%d|%d' % (n, k), 'binom(%s, %d)' % (xint(n), k), math.comb(n, k))
+        for tail in ((1,), (2,), (1, 1), (2, 1), (1, 1, 1), (3, 2), (0, 1), (1, 0, 1)):
+            for ks in ((n,) + tail, tail + (n,), tail[:1] + (n,) + tail[1:]):
+                num, tot = 1, 0
+                for k in sorted(ks, reverse=True):
+                    tot += k
+                    num *= math.comb(tot, k)
+                add('multinom-edge|%s' % ','.join(map(str, ks)), 'multinom([%s])' % ', '.join(xint(k) for k in ks), num)
     for r in (2, 3, 4):
         bases = list(range(0, 12)) + [255, 256, 1000, (1 << 16), (1 << 20) + 7, 3 ** 13]
         if tier != 'quick':
@@ -267,6 +283,22 @@ def cases(tier):
             add('floor_root|%d|%d' % (x, r), 'floor_root(%s, %d)' % (xint(x), r), fl)
             add('ceil_root|%d|%d' % (x, r), 'ceil_root(%s, %d)' % (xint(x), r), ce)
     return out
+
+
+@predicate
+def digits_rebuild(v, n, base):
+    if not isinstance(v, Seq) or v.more:
+        return False, 'not-a-complete-sequence'
+    ds = list(v.items)
+    if any(not isinstance(d, int) or isinstance(d, bool) for d in ds):
+        return False, 'non-integer-digit'
+    if sum(d * base ** i for i, d in enumerate(ds)) != n:
+        return False, 'digits-do-not-rebuild-the-number'
+    if any(abs(d) >= base or (d and (d < 0) != (n < 0)) for d in ds):
+        return False, 'digit-out-of-range'
+    if ds and ds[-1] == 0:
+        return False, 'leading-zero-digit'
+    return True, ''
 
 
 @predicate
@@ -291,6 +323,15 @@ def run(tier):
     cs = cases(tier)
     rep.bounds = {'pool_size': len(pool(tier)), 'cases': len(cs)}
     run_table(rep, cs, OPTS)
+    # results that cannot be represented within the configured size: an error or a violation, never a (truncated) value
+    lim = []
+    for a in (2, -2, 3, 10, (1 << 63) - 1, 1 << 64):
+        for b in (1 << 32, 3 << 32, 1 << 33, (1 << 32) + 1, 1 << 48, (1 << 63) - 1, 1 << 63, 1 << 64, (1 << 64) + 5, 1 << 100):
+            lim.append({'sig': 'C14|pow-unrepresentable|%d|%d' % (a, b), 'src': 'pow(%s, %s)' % (xint(a), xint(b)), 'exp': NOTVAL, 'nt': True})
+            lim.append({'sig': 'C14|sym-pow-unrepresentable|%d|%d' % (a, b), 'src': '(%s ** %s) == 1' % (xint(a), xint(b)), 'exp': NOTVAL, 'nt': True})
+    rep.bounds['unrepresentable_cases'] = len(lim)
+    run_table(rep, lim, dict(OPTS, limits={'size': 1 << 24, 'search': 100000}))
+    cs = cs + lim
     rep.states = len(cs)
     rep.transitions = rep.evaluations
     rep.traces = rep.evaluations
